@@ -112,7 +112,16 @@ def build(case):
     return owner.rec
 
 
+def kws(omit, **given):
+    """keyword arguments of a call, without the ones the case says the caller leaves out (the library's own default
+    applies; the Coq model / oracle use the DOCUMENTED default, hard-coded in tools/props/c01.py OPTIONAL)"""
+    return {k: v for k, v in given.items() if k not in omit}
+
+
 def apply(rt, op, who):
+    omit = ()
+    if isinstance(op[-1], dict):
+        omit, op = tuple(op[-1].get("omit", ())), op[:-1]
     k = op[0]
     if k == "push":
         obs = mk(op[1], op[2], op[3])
@@ -120,7 +129,7 @@ def apply(rt, op, who):
             if len(op) > 5 and op[5] == "latest" and not op[4]:
                 rt.latest = obs          # documented alias of push(obs, inplace=False)
             else:
-                rt.push(obs, inplace=op[4])
+                rt.push(obs, **kws(omit, inplace=op[4]))
         finally:
             who.gave(obs)
         return [1]
@@ -129,30 +138,30 @@ def apply(rt, op, who):
     if k == "peek":
         r = rt.latest if (len(op) > 1 and op[1] == "latest") else rt.peek(); return [0] if r is None else [3] + enc(r)
     if k == "read":
-        return [3] + enc(rt.read(op[1]))
+        return [3] + enc(rt.read(**kws(omit, offset=op[1])))
     if k == "write":
         obs = mk(op[1], op[2], op[3])
         try:
-            rt.write(obs, offset=op[4], inplace=op[5])
+            rt.write(obs, **kws(omit, offset=op[4], inplace=op[5]))
         finally:
             who.gave(obs)
         return [1]
     if k == "incr":
-        return [2, rt.incr(op[1])]
+        return [2, rt.incr(**kws(omit, pos=op[1]))]
     if k == "decr":
-        return [2, rt.decr(op[1])]
+        return [2, rt.decr(**kws(omit, pos=op[1]))]
     if k == "align":
-        rt.align(op[1]); return [1]
+        rt.align(**kws(omit, index=op[1])); return [1]
     if k == "reset":
-        rt.reset(None if op[1] is None else op[1] / 2); return [1]
+        rt.reset(**kws(omit, fill=None if op[1] is None else op[1] / 2)); return [1]
     if k == "rrs":
-        r = rt.readrange(op[1], op[2], forward=op[3])
+        r = rt.readrange(op[1], **kws(omit, offset=op[2], forward=op[3]))
         L = r.shape[-1]
         return [4, DTR[r.dtype], list(r.shape[:-1]), [[int(round(2 * float(x))) for x in row] for row in r.reshape(-1, L).tolist()]]
     if k == "rrt":
         offs = who.offs(op[2], op[3], op[5] if len(op) > 5 else "int64")
         keep = offs.clone()
-        r = rt.readrange(op[1], offs, forward=op[4])
+        r = rt.readrange(op[1], offs, **kws(omit, forward=op[4]))
         if not torch.equal(offs, keep):
             raise AssertionError("harness: readrange changed the caller's offset tensor")
         L = r.shape[-1]
@@ -164,7 +173,7 @@ def apply(rt, op, who):
         L = len(cols[0]) if cols else 0
         obs = (torch.tensor(cols, dtype=torch.float64) / 2).reshape(list(shape) + [L]).to(DT[d])
         try:
-            rt.writerange(obs, op[4], forward=op[5], inplace=op[6])
+            rt.writerange(obs, **kws(omit, offset=op[4], forward=op[5], inplace=op[6]))
         finally:
             who.gave(obs)
         return [1]
@@ -175,7 +184,7 @@ def apply(rt, op, who):
         offs = who.offs(op[4], op[5], op[8] if len(op) > 8 else "int64")
         keep = offs.clone()
         try:
-            rt.writerange(obs, offs, forward=op[6], inplace=op[7])
+            rt.writerange(obs, offs, **kws(omit, forward=op[6], inplace=op[7]))
         finally:
             who.gave(obs)
         if not torch.equal(offs, keep):
